@@ -11,7 +11,8 @@ EXTENDS ShapeSys, Json, IOUtils
 
 FreshObj(rr) == [reg |-> rr, frame |-> <<>>, splits |-> {}, segk |-> TRUE, warm |-> FALSE]
 PFRegs == {rr \in 0..Full : ~Pinch(rr)}
-OpSeq == <<"or", "and", "sub", "xor">>
+\* one operator per TLC process when VERIF_OP is set (the export is single-threaded)
+OpSeq == IF "VERIF_OP" \in DOMAIN IOEnv THEN <<IOEnv.VERIF_OP>> ELSE <<"or", "and", "sub", "xor">>
 
 Row(op, ra, rb) ==
     LET ef == BinEffect(op, FreshObj(ra), FreshObj(rb)) IN
